@@ -60,6 +60,40 @@ def c11(rng, tier, repo):
                 v['key'] = v['key'] + ':' + ('UTC' if tz == 'UTC' else 'east' if tz in ('Etc/GMT-5', 'Asia/Kolkata') else
                                             'west' if tz == 'Etc/GMT+5' else 'dst')
                 viol.append(v)
+    # a TIMESTAMP written by an update is never later than the moment scanning started -- also when the Manifest carried a
+    # TIMESTAMP from the future (clock stepped back, Manifest from a machine with a fast clock)
+    C.add_repo(repo)
+    for flags in ([], ['--timestamp'], ['--incremental']):
+        with C.Scratch() as d:
+            for f, c in (('f1', b'one'), ('sub/f3', b'three')):
+                os.makedirs(os.path.dirname(os.path.join(d, f)), exist_ok=True)
+                with open(os.path.join(d, f), 'wb') as fh:
+                    fh.write(c)
+            if C.run_cli(['create', '--hashes', 'SHA1', '--timestamp', d]) != 0:
+                continue
+            mp = os.path.join(d, 'Manifest')
+            with open(mp) as fh:
+                txt = fh.read()
+            cur = [l for l in txt.split('\n') if l.startswith('TIMESTAMP')][0]
+            future = datetime.datetime.now(datetime.timezone.utc).replace(tzinfo=None) + datetime.timedelta(minutes=30)
+            with open(mp, 'w') as fh:
+                fh.write(txt.replace(cur, 'TIMESTAMP ' + future.strftime('%Y-%m-%dT%H:%M:%SZ')))
+            with open(os.path.join(d, 'f1'), 'wb') as fh:
+                fh.write(b'one, changed and longer')
+            st = C.run_cli(['update', '--hashes', 'SHA1'] + flags + [d])
+            after = datetime.datetime.now(datetime.timezone.utc).replace(tzinfo=None)
+            n += 1
+            distinct += 1
+            ts = [t for t in C.read_manifest_entries(mp) if t[0] == 'TIMESTAMP']
+            if st != 0 or len(ts) != 1:
+                viol.append({'what': 'C11/C18 update %s with a future TIMESTAMP: status %r, TIMESTAMP entries %r' % (flags, st, ts),
+                             'key': 'future-timestamp-status', 'props': ['C11', 'C18']})
+                continue
+            written = datetime.datetime.strptime(ts[0][1], '%Y-%m-%dT%H:%M:%SZ')
+            if written > after:
+                viol.append({'what': 'C11 update %s wrote TIMESTAMP %s, later than the end of the run (%s): files changed until then are '
+                                     'skipped by the next incremental update' % (flags, ts[0][1], after.strftime('%Y-%m-%dT%H:%M:%SZ')),
+                             'key': 'future-timestamp', 'props': ['C11']})
     return viol, n, distinct, samples
 
 
